@@ -200,7 +200,8 @@ impl Lang {
         requires old(self).wf(),
         ensures final(self).reduce_map == old(self).reduce_map, final(self).compose_map == old(self).compose_map, final(self).pos_map == old(self).pos_map, final(self).char_map == old(self).char_map,
             // C15 / C02(b): source and normalised text stay position-aligned; removing the NUL padding gives back the input
-            ret matches Some(p) ==> p.0@.len() == p.1@.len() && p.1@ != word@ && p.0@.filter(not_nul()) == word@.filter(not_nul()),
+            ret matches Some(p) ==> p.0@.len() == p.1@.len(), // [C15 C02 C01]
+            ret matches Some(p) ==> p.1@ != word@ && p.0@.filter(not_nul()) == word@.filter(not_nul()),
     {
         let buffer1 = &mut self.norm_buffer1;
         let buffer2 = &mut self.norm_buffer2;
@@ -213,7 +214,7 @@ impl Lang {
         loop
             invariant_except_break word@.skip(n) == __it0.remaining(),
             invariant __it0.wf(), __it0.map == &rmap, rmap == old(self).reduce_map, old(self).wf(),
-                buffer1@.len() == buffer2@.len(),
+                buffer1@.len() == buffer2@.len(), // [C15 C02 C01]
                 0 <= n <= word@.len(), buffer1@.filter(not_nul()) == word@.take(n).filter(not_nul()),
             ensures n == word@.len(),
             decreases __it0.windows.v@.len(),
@@ -235,8 +236,8 @@ impl Lang {
                     buffer2.extend(norm_chunk);
                     let __end1 = norm_chunk.len() - word_chunk.len();
                     for __k1 in 0..__end1
-                        invariant buffer1@ == (b1 + word_chunk@) + Seq::new(__k1 as nat, |t: int| '\0'), buffer2@.len() == b1.len() + norm_chunk@.len(), __end1 == norm_chunk@.len() - word_chunk@.len(),
-                            (b1 + word_chunk@).filter(not_nul()) == buffer1@.filter(not_nul()),
+                        invariant buffer1@ == (b1 + word_chunk@) + Seq::new(__k1 as nat, |t: int| '\0'), buffer2@.len() == b1.len() + norm_chunk@.len(), __end1 == norm_chunk@.len() - word_chunk@.len(), // [C15 C02 C01]
+                            (b1 + word_chunk@).filter(not_nul()) == buffer1@.filter(not_nul()), // [C15 C02]
                     {
                         buffer1.push('\0');
                             proof {
